@@ -286,6 +286,12 @@ fn table_programs(tier: Tier, seed: u64) -> Vec<Vec<Stmt>> {
     let lat = lattice(tier, seed);
     // a 40-value subset that includes both range ends and the values next to them
     let mut vals: Vec<i64> = lat.iter().cloned().filter(|v| v.abs() <= 2 || v.abs() >= (1i64 << 59)).collect();
+    // and the values whose PRODUCTS and sums cross the limits of the integer range and of the machine word:
+    // around the square roots of 2^60, 2^63 and 2^64
+    for v in [(1i64 << 30) - 1, 1 << 30, (1 << 30) + 1, (1 << 31) - 1, 1 << 31, (1 << 32) - 1, 1 << 32, 3_037_000_499, 3_037_000_500, 1_073_741_827] {
+        vals.push(v);
+        vals.push(-v);
+    }
     vals.sort();
     vals.dedup();
     let mut out = Vec::new();
